@@ -97,6 +97,8 @@ def gen_bo(rng, n):
 def gen_iso(tier):
     n = 30
     cases = [{"k": "iso", "scn": s, "n": n} for s in (1, 2, 3, 4, 5, 6, 7, 8, 9, 10, 11, 12, 13, 14)]
+    # scenario 15: the peer closes ORDERLY (FIN) before the handshake completes, after 0 / 3 / 11 greeting bytes
+    cases += [{"k": "iso", "scn": 15, "n": n, "pre": pre} for pre in (0, 3, 11)]
     cases.append({"k": "iso", "scn": 31, "n": 10, "sockets": 100, "workers": 0})
     cases.append({"k": "iso", "scn": 31, "n": 10, "sockets": 300, "workers": 0})
     hi = 600 if tier == "quick" else 400
@@ -250,6 +252,9 @@ def make_oracle(res):
                               found_input=True, signature=sig)
             return None
         what = "healthy traffic interrupted" if row[1] != 1 else "owning socket no longer usable"
+        if scn == 15:
+            what = ("the connection closed orderly by the peer during the handshake (after %d greeting bytes) was never retried / traffic "
+                    "did not resume" % c["pre"]) if row[1] != 1 else "socket unusable after reconnect"
         if scn == 12:
             what = "traffic did not resume after the peer came back" if row[1] != 1 else "socket unusable after reconnect"
         return "scenario %d: %s (row %s; %s)" % (scn, what, row, o.get("detail"))
